@@ -22,7 +22,7 @@ go build ./... >>$R 2>&1 && echo "build=ok" >> $R || { echo "RESULT build=FAIL" 
 /verif/tools/baseline.sh $WT > $OUT/$NAME.suite 2>&1; S=$?
 echo "suite_exit=$S $(head -1 $OUT/$NAME.suite)" >> $R
 cp $SRC/zz_seed_demo_test.go $DIR/zz_seed_demo_test.go
-timeout 900 $CMD > $OUT/$NAME.demo_with 2>&1; W=$?
+timeout 900 bash -c "$CMD" > $OUT/$NAME.demo_with 2>&1; W=$?
 git apply -R $SRC/patch.diff
-timeout 900 $CMD > $OUT/$NAME.demo_without 2>&1; WO=$?
+timeout 900 bash -c "$CMD" > $OUT/$NAME.demo_without 2>&1; WO=$?
 echo "RESULT apply=ok suite_exit=$S demo_with_exit=$W demo_without_exit=$WO" >> $R
